@@ -128,10 +128,17 @@ ExpandWrap(j, odd, s, m, v) ==
 \* including the overflow encodings N, N+1, N+2 and 2^256-1.
 NN == ToNat(N)
 TinyScalars == { FromNat(x) : x \in 0..(NN + 2) } \cup { Max256 }
-TinyCases ==
+\* complete for the order-7 and order-13 groups; for order 199 the product is sampled on two axes (every r, every nonce)
+TinyBig == NN > 20
+Sample(k) == IF TinyBig THEN { x \in 0..(NN-1) : x % k = 0 \/ x < 3 \/ x > NN - 4 } ELSE 0..(NN-1)
+TinyCases == IF ~TinyBig THEN
        { << "tsign", d, m, k >> : d \in TinyScalars, m \in TinyScalars, k \in { FromNat(x) : x \in 0..NN } }
   \cup { << "tverify", r, s, m, d >> : r \in 0..(NN-1), s \in 0..(NN-1), m \in 0..(NN-1), d \in 1..(NN-1) }
   \cup { << "trecover", r, s, m, rid >> : r \in 0..(NN-1), s \in 0..(NN-1), m \in 0..(NN-1), rid \in {0, 1} }
+ ELSE
+       { << "tsign", FromNat(d), FromNat(m), k >> : d \in Sample(17) \cup {NN, NN+1}, m \in Sample(23) \cup {NN, NN+2}, k \in { FromNat(x) : x \in 0..NN } }
+  \cup { << "tverify", r, s, m, d >> : r \in 0..(NN-1), s \in Sample(7), m \in Sample(67), d \in Sample(67) \ {0} }
+  \cup { << "trecover", r, s, m, rid >> : r \in 0..(NN-1), s \in Sample(67), m \in Sample(67), rid \in {0, 1} }
 ExpandTiny(c) ==
   CASE c[1] = "tsign" -> [ e |-> "EcdsaSign", in |-> [ key |-> NBytes(c[2]), msg |-> NBytes(c[3]), nf |-> 2, rec |-> 0,
                                                       nonces |-> << NBytes(Zero), NBytes(c[4]) >> ] ]
